@@ -43,10 +43,15 @@ CfgTask(cfg, k) == CASE k = "Announce" -> cfg.pa [] k = "AnnounceDown" -> cfg.pa
 
 C13Step(m, o) ==
     LET isTimer == o.call = "timer"
-        tag == IF isTimer THEN FirstTag(m.pending, o.args) ELSE -1
+        tag == IF isTimer
+               THEN FirstTag(SelectSeq(m.pending, LAMBDA p : ~Tokened(p.t.k) \/ m.epoch - p.tag < TokenMod), o.args)
+               ELSE -1
         known == isTimer /\ tag >= 0
         exact == m.exact /\ ~o.env.forge /\ (isTimer => known)
-        p0 == IF known THEN RemoveFirst(m.pending, o.args) ELSE m.pending
+        \* the property assumes fewer than TokenMod epoch changes between issue and delivery:
+        \* entries older than that are outside its scope and are forgotten
+        live == SelectSeq(m.pending, LAMBDA p : ~Tokened(p.t.k) \/ m.epoch - p.tag < TokenMod)
+        p0 == IF known THEN RemoveFirst(live, o.args) ELSE live
         \* change_identity / reuse end the epoch before anything else happens in the call
         bump == (o.call = "change_identity" /\ o.post.id # o.pre.id) \/ (o.call = "reuse" /\ o.res = "Ok")
         a0 == [epoch |-> IF bump THEN m.epoch + 1 ELSE m.epoch,
